@@ -60,6 +60,10 @@ func verifStep(vm *Type, ctxp *context, m *memory.Type, ip int, instr bytecode.T
 		d := 0
 		for c := ctxp; c.parent != nil; c = c.parent {
 			d++
+			if d > 100000 {
+				// the contexts must form a tree; a cycle would make this walk (and the error report) spin
+				panic("verif: context parent chain is cyclic")
+			}
 		}
 		mon.LastCtxDepth = d
 		if st.SP > mon.MaxSPChild {
